@@ -222,9 +222,11 @@ def _norm(s):
 
 
 def render(scratch, template_path, vacuity=False):
-    """-> (generated text, report list)"""
+    """-> (generated text, report list).  vacuity: False | True (every //@VACUITY marker becomes `false,`)
+    | int k (only the k-th marker: callers of a falsified callee verify trivially, so twins go one at a time)"""
     meta, segs = parse_template(template_path)
     out, report = [], []
+    vac_seen = [0]
     for seg in segs:
         if isinstance(seg, str):
             out.append(seg)
@@ -278,10 +280,16 @@ def render(scratch, template_path, vacuity=False):
             sig2 = sig2[:m.start()] + "-> (%s: %s)%s" % (p.result, m.group(1).strip(), wh)
             rep["transformations"].append("return type named: -> (%s: %s)" % (p.result, _norm(m.group(1))))
         contract = [l for l in p.contract]
-        if vacuity:
-            contract = [("        false, //# VACUITY" if l.strip() == "//@VACUITY" else l) for l in contract]
-        else:
-            contract = [l for l in contract if l.strip() != "//@VACUITY"]
+        c2 = []
+        for l in contract:
+            if l.strip() == "//@VACUITY":
+                k = vac_seen[0]
+                vac_seen[0] += 1
+                if vacuity is True or (vacuity is not False and vacuity == k):
+                    c2.append("        false, //# VACUITY")
+                continue
+            c2.append(l)
+        contract = c2
         if any(l.strip() for l in contract):
             rep["transformations"].append("contract spliced between signature and body (%d lines)" % len(contract))
         body2 = body
@@ -332,6 +340,7 @@ def render(scratch, template_path, vacuity=False):
         out.append(piece)
         out.append("// ---- end of pasted function ----")
         report.append(rep)
+    meta["n_vacuity_markers"] = vac_seen[0]
     return "\n".join(out) + "\n", report, meta
 
 
@@ -402,20 +411,24 @@ def extract_part(prop, tier, seed, units_ignored, tag, only=None):
                     obligations.append(ob)
                 if viol:
                     violations.append(viol)
-            # vacuity twin
+            # vacuity twins, one contracted function at a time: with `ensures false` added the function must FAIL
             try:
-                text2, report2, rel2, cmd2, out2, diags2, summary2 = run_extract(sc, u, vacuity=True)
-                n_marks = sum(1 for l in text2.splitlines() if "//# VACUITY" in l)
-                tl = text2.splitlines()
-                hit = set()
-                for d in diags2:
-                    if d.get("level") == "error":
-                        for sp in d.get("spans", []):
-                            if sp.get("file_name") == rel2 and "//# VACUITY" in tl[sp["line_start"] - 1]:
-                                hit.add(sp["line_start"])
-                info["vacuity"].append({"unit": u["name"], "twins": n_marks, "twins_failed_as_required": len(hit)})
-                if len(hit) != n_marks:
-                    undecided.append("%s: vacuity twin: only %d of %d `ensures false` twins fail" % (u["name"], len(hit), n_marks))
+                _t, _r, meta_u = render(sc, u["path"])
+                n_marks = meta_u.get("n_vacuity_markers", 0)
+                failed_twins = 0
+                for k in range(n_marks):
+                    text2, report2, rel2, cmd2, out2, diags2, summary2 = run_extract(sc, u, vacuity=k)
+                    tl = text2.splitlines()
+                    hit = False
+                    for d in diags2:
+                        if d.get("level") == "error":
+                            for sp in d.get("spans", []):
+                                if sp.get("file_name") == rel2 and "//# VACUITY" in tl[sp["line_start"] - 1]:
+                                    hit = True
+                    failed_twins += 1 if hit else 0
+                info["vacuity"].append({"unit": u["name"], "twins": n_marks, "twins_failed_as_required": failed_twins})
+                if failed_twins != n_marks:
+                    undecided.append("%s: vacuity twin: only %d of %d `ensures false` twins fail" % (u["name"], failed_twins, n_marks))
             except Undecided as ex:
                 undecided.append("%s vacuity: %s" % (u["name"], ex))
     return obligations, violations, undecided, info
